@@ -251,9 +251,22 @@ def _strategy(avoid_remove=False):
                                   "ops": st.one_of(plain, seeded, seeded)})
 
 
+def _dusq_remove_strategy():
+    """Dusq histories dense in pull / remove / push over a well filled set (value-indexed removal after FIFO pulls)."""
+    v = st.integers(0, 3)
+    op = st.one_of(st.tuples(st.just("pull")), st.tuples(st.just("remove"), v), st.tuples(st.just("remove"), v),
+                   st.tuples(st.just("push"), v), st.tuples(st.just("push"), v), st.tuples(st.just("many"), st.lists(v, max_size=4)),
+                   st.tuples(st.just("reopen")), st.tuples(st.just("resync")), st.tuples(st.just("snapshot")),
+                   st.tuples(st.just("clear"))).map(list)
+    return st.fixed_dictionaries({"kind": st.just("dusq"),
+                                  "init": st.permutations([0, 1, 2, 3]).map(list),
+                                  "ops": st.lists(op, min_size=2, max_size=20)})
+
+
 def searches(tier):
     q = tier == "quick"
-    return [("histories", _strategy(), 400 if q else 2500)]
+    return [("histories", _strategy(), 400 if q else 2500),
+            ("dusq-pull-remove", _dusq_remove_strategy(), 250 if q else 1500)]
 
 
 def extra(ck):
